@@ -200,6 +200,14 @@ def check_detector(rec, inp):
         score_violation(rec, name, cuts_ok,
                         f"MovingWindow(bandwidth={b}, {name}).transform_scores: score[{t}] = {float(got[t])!r}, the change score between X[{t - b}:{t}] and X[{t}:{t + b}] "
                         f"is {float(exp[t])!r}", "C08.score_def@transform_scores", inp)
+    if inp["threshold_scale"] is not None:
+        # the threshold used must be the REQUESTED one: scale x the detector's own published default for the training shape (also for scale 0)
+        from skchange.change_detectors import MovingWindow
+        want = float(inp["threshold_scale"]) * float(MovingWindow.get_default_threshold(Xfit.shape[0], Xfit.shape[1], b))
+        if np.isfinite(want) and not close(th, want):
+            rec.violation(f"MovingWindow:threshold:{name}", f"threshold_scale={inp['threshold_scale']} on training shape {Xfit.shape}: fitted threshold_ {th} "
+                          f"but the requested threshold is {want}", "C08.threshold", inp)
+            return info
     if not (th >= 0) and inp["threshold_scale"] is not None:        # quantifier: thresholds >= 0 or tuned
         return info
     if not np.isfinite(th):
@@ -370,6 +378,7 @@ def _enumerate(rec, tier, seed, bound_out):
                             mids = [(x + y) / 2 for x, y in zip([0.0] + vals[:-1], vals)]
                             pick = mids[:: max(1, len(mids) // (2 if quick else 4))][: (2 if quick else 4)]
                             variants += [dict(base, threshold_scale=float(t / info["threshold"])) for t in pick]
+                        variants.append(dict(base, threshold_scale=0.0))            # scale 0: the requested threshold is 0, not a tuned one
                         variants += [dict(base, threshold_scale=None, level=lv) for lv in ((0.5,) if quick else (0.5, 0.25, 0.01))]
                         if (n + b) % 3 == 0:
                             variants.append(dict(base, threshold_scale=None, level=0.4, Xfit=O.gen_data(rng, n + 2, p, "none")))
